@@ -36,7 +36,7 @@ func main() {
 	logx.Disable()
 	getEnv() // start miniredis + client (and load the scripts) outside any controlled execution
 	scs := scenarios()
-	quick, thorough := vx.Bounds{P: 4, T: 0}, vx.Bounds{P: 8, T: 0}
+	quick, thorough := vx.Bounds{P: 4, T: 0}, vx.Bounds{P: 6, T: 0}
 
 	if cfg.Replay != "" {
 		b, err := os.ReadFile(cfg.Replay)
